@@ -344,6 +344,59 @@ def fit_floor_instance(kind, cov_norm, floor, aeps):
                     patches=patches, definedness=False, crosscheck=False, timeout=30.0, native_n=3)
 
 
+def gaussian_constructor_instance():
+    """The mechanism of the property for the Gaussians: the constructor refuses a covariance that is not positive definite (explicit
+    exception), for every covariance structure, with and without leading axes -- decided by evaluation on a fixed list of cases."""
+    from pb_bss.distribution import gaussian as g
+
+    def make(B):
+        return {'d': B.given('d', np.zeros(1))}
+
+    def call(inp):
+        res = []
+        for lead in ((), (2,), (2, 3)):
+            D = 3
+            mean = np.zeros(lead + (D,))
+            for kind, bad in (('zero', 0.0), ('negative', -1e-3), ('minus-zero', -0.0)):
+                for ctype in ('full', 'diagonal', 'spherical'):
+                    if ctype == 'full':
+                        cov = np.broadcast_to(np.eye(D), lead + (D, D)).copy()
+                        cov[..., 1, 1] = bad
+                        cls = g.Gaussian
+                    elif ctype == 'diagonal':
+                        cov = np.ones(lead + (D,))
+                        cov[..., 1] = bad
+                        cls = g.DiagonalGaussian
+                    else:
+                        cov = np.ones(lead)
+                        cov[...] = bad
+                        cls = g.SphericalGaussian
+                        if lead:
+                            cov = np.ones(lead)
+                            cov[(0,) * len(lead)] = bad           # one class of the stack only
+                    try:
+                        m = cls(mean=mean, covariance=cov)
+                        res.append((ctype, kind, len(lead), 'accepted', bool(np.all(np.isfinite(m.log_pdf(np.ones(lead + (4, D))))))))
+                    except (ValueError, np.linalg.LinAlgError) as e:
+                        res.append((ctype, kind, len(lead), 'rejected', True))
+            # a positive covariance is accepted and gives a finite density
+            for ctype, cls, cov in (('full', g.Gaussian, np.broadcast_to(np.eye(D) * 1e-6, lead + (D, D)).copy()),
+                                    ('diagonal', g.DiagonalGaussian, np.full(lead + (D,), 1e-6)), ('spherical', g.SphericalGaussian, np.full(lead, 1e-6))):
+                m = cls(mean=mean, covariance=cov)
+                res.append((ctype, 'positive', len(lead), 'accepted', bool(np.all(np.isfinite(m.log_pdf(np.ones(lead + (4, D))))))))
+        return {'cases': res}
+
+    def ensures(sp, inp, out):
+        for ctype, kind, nl, verdict, finite in out['cases']:
+            if kind == 'positive':
+                yield 'positive-covariance-accepted-with-finite-density[%s,lead%d]' % (ctype, nl), verdict == 'accepted' and finite
+            else:
+                yield 'non-positive-covariance-rejected[%s,%s,lead%d]' % (ctype, kind, nl), verdict == 'rejected'
+
+    return Instance('C09', DN + 'gaussian:*Gaussian.__post_init__', 'constructor-rejects-non-positive-covariances', make, call, ensures, mode='bounded',
+                    bounded_n=1, frame=False, fixed_seed=True)
+
+
 def degenerate_bounded_instance():
     """Fits on degenerate data: finite parameters inside their domain (bounded stand-in)."""
     from pb_bss.distribution import (CACGMMTrainer, CWMMTrainer, GMMTrainer, VMFMMTrainer, ComplexAngularCentralGaussianTrainer,
@@ -413,7 +466,7 @@ def degenerate_bounded_instance():
             m = CWMMTrainer().fit(y, initialization=init, iterations=inp['it'], weight_constant_axis=wca)
             res.update(weight=m.weight, mode=m.complex_watson.mode, kappa=m.complex_watson.concentration, K=K)
         elif model.startswith('gmm'):
-            if data in ('collinear', 'few-frames', 'duplicated', 'zero-frames') and model != 'gmm-spherical':
+            if data in ('collinear', 'few-frames', 'duplicated', 'zero-frames') and model == 'gmm-full':
                 data = 'generic'
                 y = rng.normal(size=(F, N if N > D else 12, D))
                 init = rng.dirichlet(np.ones(K), size=(F, y.shape[1])).transpose(0, 2, 1).copy()
@@ -491,6 +544,9 @@ def degenerate_bounded_instance():
             else:
                 got, rv = c[:, 0], rv.mean(-1)
             yield 'gaussian-variance-positive-and-equal-to-the-two-pass-variance[%s]' % out['ctype'], bool(np.all(got > 0) and np.allclose(got, rv, rtol=1e-3))
+        if 'cov' in out and out.get('ctype') in ('diagonal', 'spherical'):
+            # a variance that is not positive is rejected by the constructor (explicit exception), never stored
+            yield 'gaussian-variances-positive[%s]' % out['ctype'], bool(np.all(np.asarray(out['cov']) > 0))
         if 'cov' in out and out.get('ctype') == 'full':
             c = np.asarray(out['cov'])
             yield 'gaussian-covariance-symmetric', bool(np.allclose(c, np.swapaxes(c, -1, -2), rtol=1e-9, atol=1e-12))
@@ -499,7 +555,7 @@ def degenerate_bounded_instance():
             ev_ = np.linalg.eigvalsh(0.5 * (c + np.swapaxes(c, -1, -2)))
             yield 'gaussian-covariance-positive-definite', bool(np.all(ev_[..., 0] > -1e-12 * ev_[..., -1]) and np.all(ev_[..., -1] > 0))
 
-    return Instance('C09', DN + '*Trainer.fit', 'bounded-degenerate-data', make, call, ensures, mode='bounded', bounded_n=150, frame=False,
+    return Instance('C09', DN + '*Trainer.fit', 'bounded-degenerate-data', make, call, ensures, mode='bounded', bounded_n=320, frame=False,
                     raises=(ValueError, np.linalg.LinAlgError))      # explicit rejection of an ill-defined covariance is allowed
 
 
@@ -533,6 +589,7 @@ def instances(tier):
         out.append(fit_floor_instance(kind, 'eigenvalue', 1e-3, 1e-10))
         out.append(fit_floor_instance(kind, 'trace', 1e-6, 1e-3))
     out.append(fit_floor_instance('cacgmm', False, 1e-3, 1e-8))
+    out.append(gaussian_constructor_instance())
     out.append(degenerate_bounded_instance())
     return out
 
